@@ -190,6 +190,141 @@ def purity_mixture(d, ctx):
     ctx.nontrivial(has_array(c))
 
 
+more_label = []
+
+
+def _more_entry_points(name, d, rng, v):
+    """returns (call, args, kwargs, numpy seed) or None when ``name`` is
+    handled by the first table"""
+    import pb_bss.distribution as dist
+    import pb_bss.extraction.beamformer as bf
+    import pb_bss.extraction.beamformer_wrapper as bw
+    import pb_bss.extraction.mask_module as mk
+    import pb_bss.permutation_alignment as pa
+    from pb_bss.distribution import complex_angular_central_gaussian as m_cacg
+    from pb_bss.distribution import complex_bingham as m_bing
+    from pb_bss.distribution import complex_watson as m_wat
+    from pb_bss.distribution import utils as dutils
+    D, N, F, K, T, lead = v['D'], v['N'], v['F'], v['K'], v['T'], v['lead']
+    yc, yr, hp, hx, w, X = v['yc'], v['yr'], v['hp'], v['hx'], v['w'], v['X']
+    if name == 'cacgmm.log_likelihood':
+        model = dist.CACGMMTrainer().fit(yc, initialization=np.moveaxis(
+            rng.dirichlet(np.ones(K), size=(*lead, N)), -1, -2), iterations=1)
+        return model.log_likelihood, (yc,), {}, None
+    if name == 'normalize_observation':
+        which = d.choice(['cacg', 'watson', 'bingham'])
+        more_label.append(which)
+        fn = {'cacg': m_cacg, 'watson': m_wat, 'bingham': m_bing}[which].normalize_observation
+        return fn, (yc,), {}, None
+    if name in ('log_norm', 'pdf'):
+        which = d.choice(['watson', 'vmf', 'bingham'])
+        more_label.append(which)
+        if which == 'watson':
+            m = dist.ComplexWatson(mode=gen.unit(gen.cnormal(rng, (*lead, D))),
+                                   concentration=np.asarray(rng.uniform(1, 20, size=lead)))
+            arg = gen.unit(yc)
+        elif which == 'vmf':
+            m = dist.VonMisesFisher(mean=gen.unit(rng.normal(size=(*lead, D))),
+                                    concentration=np.asarray(rng.uniform(1, 20, size=lead)))
+            arg = yr
+        else:
+            lam = -np.sort(rng.uniform(0, 10, size=D))[::-1]
+            m = m_bing.ComplexBingham(gen.haar_unitary(rng, D), lam - lam.max())
+            arg = gen.unit(yc)
+        if name == 'log_norm':
+            return (lambda m_: (m_.log_norm(), m_)), (m,), {}, None
+        return m.pdf, (arg,), {}, None
+    if name == 'watson.hypergeometric':
+        tr = dist.ComplexWatsonTrainer(D)
+        if d.bool():
+            return tr.hypergeometric_ratio, (rng.uniform(0, 50, size=(N,)),), {}, None
+        return tr.hypergeometric_ratio_inverse, (rng.uniform(1 / D, 0.98, size=(N,)),), {}, None
+    if name == 'force_hermitian':
+        fn = dutils.force_hermitian if d.bool() else m_bing.force_hermitian
+        return fn, (gen.cnormal(rng, (*lead, D, D)),), {}, None
+    if name == 'stack_parameters':
+        ms = [dist.ComplexAngularCentralGaussian.from_covariance(gen.hpd(rng, D, 10, 1.0, ()))
+              for _ in range(2)]
+        if d.bool():
+            ms = [dist.CACGMM(cacg=m, weight=np.array([0.3 + i])) for i, m in enumerate(ms)]
+        return dutils.stack_parameters, (ms,), {}, None
+    if name == 'get_pca':
+        return bf.get_pca, (hx,), dict(return_all_vecs=d.bool()), None
+    if name == 'merl':
+        return bf.get_mvdr_vector_merl, (hx, hp), {}, None
+    if name == 'distortionless':
+        return bf.distortionless_normalization, (w, gen.cnormal(rng, (F, D)), hp), {}, None
+    if name == 'snr_postfilter':
+        return bf.mvdr_snr_postfilter, (w, hx, hp), {}, None
+    if name == 'zero_degree':
+        return bf.zero_degree_normalization, (gen.cnormal(rng, (*lead, F, D)), d.int(0, D - 1)), {}, None
+    if name == 'apply_online':
+        return bf.apply_online_beamforming_vector, (gen.cnormal(rng, (T, F, D)), X), {}, None
+    if name == 'optimal_reference_channel':
+        wm = gen.cnormal(rng, (F, D, D))
+        return bf.get_optimal_reference_channel, (wm, hx, hp), {}, None
+    if name == 'rank_one':
+        if d.bool():
+            return bw.get_pca_rank_one_estimate, (hx,), {}, None
+        return bw.get_gev_rank_one_estimate, (hx, hp), {}, None
+    if name == 'biased_binary_mask':
+        return mk.biased_binary_mask, (gen.cnormal(rng, (2, T, 17)),), {}, None
+    if name == 'interleave':
+        return (lambda a_, b_: list(pa.interleave(a_, b_))), (
+            rng.normal(size=(3,)), rng.normal(size=(d.int(1, 5),))), {}, None
+    if name == 'sample_random_mapping':
+        return pa.sample_random_mapping, (K, F), {}, d.int(0, 99)
+    if name == 'energy':
+        from pb_bss.evaluation import sxr_module as sx
+        fn = sx.get_energy if d.bool() else sx.get_variance_for_zero_mean_signal
+        return fn, (v['real'],), dict(axis=d.choice([None, -1]), keepdims=d.bool()), None
+    if name == 'init.deflation':
+        from pb_bss.initializer import deflation
+        Y = gen.cnormal(rng, (257, 12, D))
+        return deflation.deflationSeed, (Y, K), dict(
+            permutation_free=d.bool(), neighbors=d.int(1, 4)), None
+    if name == 'stable_solve':
+        from pb_bss.math.solve import stable_solve
+        A = np.array(hp)
+        if d.bool():
+            A[d.int(0, F - 1)] = 0          # the least-squares fallback
+        return stable_solve, (A, hx), {}, None
+    if name == 'binary_gmm':
+        from pb_bss.distribution.gmm import BinaryGMMTrainer
+        x = rng.normal(size=(N, D)) + 3 * rng.integers(0, 2, size=(N, 1))
+        use_sal = d.bool()
+        return (lambda x_, s_: (lambda m_: m_.predict(x_))(
+            BinaryGMMTrainer().fit(x_, 2, saliency=s_))), (
+            x, (rng.uniform(size=N) > 0.2) if use_sal else None), {}, d.int(0, 99)
+    if name == 'sample':
+        which = d.choice(['cacgmm', 'cacg', 'ccsg'])
+        more_label.append(which)
+        cov = gen.hpd(rng, D, 10, 1.0, (K,))
+        if which == 'cacgmm':
+            from pb_bss.distribution.cacgmm import sample_cacgmm
+            wgt = rng.dirichlet(np.ones(K))
+            return sample_cacgmm, (d.int(1, 20), wgt, cov), dict(return_label=d.bool()), d.int(0, 99)
+        if which == 'cacg':
+            return m_cacg.sample_complex_angular_central_gaussian, ((d.int(1, 9),), cov[0]), {}, d.int(0, 99)
+        m = dist.ComplexCircularSymmetricGaussian(covariance=cov[0])
+        return m.sample, ((d.int(1, 9),),), {}, d.int(0, 99)
+    if name == 'integration_affiliation':
+        from pb_bss.distribution.mixture_model_utils import \
+            log_pdf_to_affiliation_for_integration_models_with_inline_pa as fn
+        Fq = 3
+        return fn, (np.full((K, 1), 1 / K), rng.normal(size=(Fq, K, N)) * 5,
+                    rng.normal(size=(Fq, K, N)) * 5), dict(
+            source_activity_mask=d.choice([None, 1]) and (rng.uniform(size=(Fq, K, N)) > 0.2),
+            affiliation_eps=d.choice([0., 1e-10])), None
+    if name == 'bingham.find_eigenvalues':
+        ev = np.sort(rng.dirichlet(np.ones(3)))
+        which = d.choice(['v2', 'v3'])
+        more_label.append(which)
+        fn = getattr(m_bing.ComplexBinghamTrainer, 'find_eigenvalues_' + which)
+        return fn, (ev,), dict(max_concentration=d.choice([np.inf, 500.])), None
+    return None
+
+
 @subcheck(SUBCHECKS, 'purity_functions', quick=1600, thorough=26000)
 def purity_functions(d, ctx):
     import pb_bss.distribution as dist
@@ -232,8 +367,23 @@ def purity_functions(d, ctx):
         'psm', 'icm', 'lorenz', 'quantile', 'dhtv', 'dhtv-euclidean', 'greedy',
         'oracle', 'apply_mapping', 'score_mapping', 'inline_alignment',
         'estimate_mixture_weight', 'log_pdf_to_affiliation', 'si_sdr', 'input_sxr',
-        'output_sxr', 'get_snr', 'set_snr', 'init.iid', 'init.flag'])
+        'output_sxr', 'get_snr', 'set_snr', 'init.iid', 'init.flag',
+        # entry points nobody else calls (second pass over the public names)
+        'cacgmm.log_likelihood', 'normalize_observation', 'log_norm', 'pdf',
+        'watson.hypergeometric', 'force_hermitian', 'stack_parameters', 'get_pca',
+        'merl', 'distortionless', 'snr_postfilter', 'zero_degree', 'apply_online',
+        'optimal_reference_channel', 'rank_one', 'biased_binary_mask', 'interleave',
+        'sample_random_mapping', 'energy', 'init.deflation', 'stable_solve',
+        'binary_gmm', 'sample', 'integration_affiliation', 'bingham.find_eigenvalues'])
     seed = None
+    more = _more_entry_points(name, d, rng, dict(
+        D=D, N=N, F=F, K=K, T=T, lead=lead, yc=yc, yr=yr, sal=sal, hp=hp, hx=hx, w=w,
+        X=X, mask=mask, sig=sig, pmask=pmask, real=real))
+    if more is not None:
+        call, a, k, seed = more
+        name = name + (':' + more_label[0] if more_label else '')
+        del more_label[:]
+        return _finish_purity(d, ctx, name, call, a, k, seed, D, N, F, K, lead)
     if name == 'cacg.fit':
         call, a, k = dist.ComplexAngularCentralGaussianTrainer().fit, (yc,), dict(
             covariance_norm=norm, iterations=2)
@@ -367,6 +517,10 @@ def purity_functions(d, ctx):
     else:
         call, a, k = deterministic.flag, (yc, K), dict(permutation_free=True,
                                                        minimum=d.choice([0, 0.1]))
+    return _finish_purity(d, ctx, name, call, a, k, seed, D, N, F, K, lead)
+
+
+def _finish_purity(d, ctx, name, call, a, k, seed, D, N, F, K, lead):
     variant = d.choice(['as-is', 'as-is', 'as-is', 'real-valued', 'single-precision'])
     if variant != 'as-is':
         def conv(x):
@@ -386,6 +540,216 @@ def purity_functions(d, ctx):
     ctx.label(name.split(':')[0], variant)
     c = pure_call(ctx, name, call, a, k, np_seed=seed)
     ctx.nontrivial(has_array(c))
+
+
+# ---------------------------------------------------------------------------
+# Part A' - purity at every call site of the other property modules
+# ---------------------------------------------------------------------------
+# Every check of C01..C19 reaches the library through ``ctx.lib``.  Here the
+# generators of those checks are reused (arbitrary valid arguments: every
+# option, layout, dtype and degenerate family they draw) and only the purity
+# protocol is judged: the call is made once as the host wrote it and once with
+# every reachable array read-only; bytes of all arrays before == after, the
+# second call is accepted and reproduces the first result exactly.  Verdicts of
+# the host's own clauses belong to the host's property and are ignored here.
+
+class PurityViolation(Violation):
+    pass
+
+
+def _reachable_arrays(obj, out, seen, depth=0):
+    if id(obj) in seen or depth > 4:
+        return
+    if isinstance(obj, np.ndarray):
+        seen.add(id(obj))
+        if obj.dtype != object:
+            out.append(obj)
+    elif isinstance(obj, dict):
+        seen.add(id(obj))
+        for v in obj.values():
+            _reachable_arrays(v, out, seen, depth + 1)
+    elif isinstance(obj, (list, tuple)):
+        seen.add(id(obj))
+        for v in obj:
+            _reachable_arrays(v, out, seen, depth + 1)
+    elif dataclasses.is_dataclass(obj) and not isinstance(obj, type):
+        seen.add(id(obj))
+        for f in dataclasses.fields(obj):
+            _reachable_arrays(getattr(obj, f.name, None), out, seen, depth + 1)
+    elif type(obj).__module__.startswith('pbv') and hasattr(obj, '__dict__'):
+        # argument bundles of the harness (mm.Case: observations, start,
+        # saliency, masks, fixed covariances ...)
+        seen.add(id(obj))
+        for v in vars(obj).values():
+            _reachable_arrays(v, out, seen, depth + 1)
+
+
+def _entry_name(fn):
+    name = getattr(fn, '__qualname__', getattr(fn, '__name__', type(fn).__name__))
+    return name.replace('<locals>.', '').replace('<lambda>', 'lambda')
+
+
+class PurityCtx:
+    """stands in for core.Ctx while a host sub-check runs"""
+
+    def __init__(self, real, host):
+        self.real = real
+        self.host = host
+        self.calls = 0
+        self.array_calls = 0
+        self.entries = set()
+
+    def label(self, *a):
+        pass
+
+    def nontrivial(self, flag=True):
+        pass
+
+    def describe(self, **kw):
+        pass
+
+    def keep(self, **kw):
+        pass
+
+    def _arrays_of(self, fn, args, kwargs):
+        passed, seen = [], set()
+        _reachable_arrays(args, passed, seen)
+        _reachable_arrays(kwargs, passed, seen)
+        # host side closures: the arrays the lambda hands over
+        for cell in (getattr(fn, '__closure__', None) or ()):
+            try:
+                _reachable_arrays(cell.cell_contents, passed, seen)
+            except ValueError:
+                pass
+        receiver = []
+        self_obj = getattr(fn, '__self__', None)
+        if self_obj is not None and not isinstance(self_obj, type):
+            _reachable_arrays(self_obj, receiver, seen)
+        return passed, receiver
+
+    def lib(self, fn, *args, allow=(), allow_if=None, clause='raises', **kwargs):
+        from pbv.core import Ctx
+        self.calls += 1
+        name = _entry_name(fn)
+        exempt = getattr(fn, '__name__', '') == 'set_snr' and kwargs.get('inplace', True)
+        passed, receiver = self._arrays_of(fn, args, kwargs)
+        if exempt or not (passed or receiver):
+            return Ctx.lib(self.real, fn, *args, allow=allow, allow_if=allow_if,
+                           clause=clause, **kwargs)
+        self.array_calls += 1
+        self.entries.add(name)
+        before = [(a, a.tobytes(), a.shape, a.dtype, a.flags.writeable)
+                  for a in passed + receiver]
+        n_passed = len(passed)
+
+        def unchanged(stage):
+            for i, (a, b, shape, dtype, _) in enumerate(before):
+                if not (a.shape == shape and a.dtype == dtype and a.tobytes() == b):
+                    raise PurityViolation(
+                        'argument-modified' if i < n_passed else
+                        'receiver-parameters-modified',
+                        f'{name} ({stage}; host {self.host})', entry=name)
+
+        state = np.random.get_state()
+        # first call exactly as the host wrote it (host semantics for refusals)
+        r1 = Ctx.lib(self.real, fn, *args, allow=allow, allow_if=allow_if,
+                     clause=clause, **kwargs)
+        unchanged('writable arguments')
+        after_state = np.random.get_state()
+        np.random.set_state(state)
+        for a, *_, w in before:
+            if w:
+                a.setflags(write=False)
+        # the repeated call is not reported to the host's in-loop observers
+        import pb_bss._verif as hook
+        hook_enabled, hook.ENABLED = hook.ENABLED, False
+        try:
+            try:
+                r2 = fn(*args, **kwargs)
+            except Exception as e:  # noqa
+                raise PurityViolation(
+                    'read-only-argument-rejected',
+                    f'{name}: {type(e).__name__}: {str(e)[:160]} (host {self.host})',
+                    entry=name)
+        finally:
+            hook.ENABLED = hook_enabled
+            for a, *_, w in before:
+                if w:
+                    a.setflags(write=True)
+            np.random.set_state(after_state)
+        unchanged('read-only arguments')
+        if not same(canon(r1), canon(r2)):
+            raise PurityViolation('repeated-call-differs',
+                                  f'{name} (host {self.host})', entry=name)
+        return r1
+
+
+_HOSTS = None
+
+
+def _hosts():
+    global _HOSTS
+    if _HOSTS is None:
+        import importlib
+        _HOSTS = []
+        for i in range(1, 20):
+            mod = importlib.import_module(f'pbv.props.c{i:02d}')
+            for sc in mod.SUBCHECKS:
+                if getattr(sc, 'machine', None) is not None:
+                    continue
+                if (sc.quick or 0) <= 0 and (sc.thorough or 0) <= 0:
+                    continue      # exhaustive-only enumerations
+                _HOSTS.append((f'C{i:02d}', sc))
+    return _HOSTS
+
+
+_HOST_TABLE = None
+
+
+def _host_table():
+    """every property gets the same share; inside a property a sub-check's
+    share (of 60 slots) grows with the square root of its own quick budget.
+    Two small ranges are drawn instead of one large one: Hypothesis draws small
+    integer ranges nearly uniformly, large ones with a bias to small values."""
+    global _HOST_TABLE
+    if _HOST_TABLE is None:
+        hosts = _hosts()
+        table = []
+        for pid in sorted({p for p, _ in hosts}):
+            mine = [sc for p, sc in hosts if p == pid]
+            w = [max(1.0, float(sc.quick or 1)) ** 0.5 for sc in mine]
+            slots = []
+            for sc, wi in zip(mine, w):
+                slots += [sc] * max(1, int(round(60 * wi / sum(w))))
+            table.append((pid, slots))
+        _HOST_TABLE = table
+    return _HOST_TABLE
+
+
+@subcheck(SUBCHECKS, 'purity_at_call_sites', quick=2400, thorough=40000,
+          shards_quick=16, shards_thorough=16)
+def purity_at_call_sites(d, ctx):
+    table = _host_table()
+    pid, slots = table[d.int(0, len(table) - 1)]
+    sc = slots[d.int(0, len(slots) - 1)]
+    host = f'{pid}.{sc.name}'
+    pctx = PurityCtx(ctx, host)
+    verdict = 'host-ok'
+    try:
+        sc.fn(d, pctx)
+    except PurityViolation:
+        raise
+    except Violation:
+        verdict = 'host-violation-not-judged-here'
+    except Rejected:
+        verdict = 'host-rejected'
+    except Borderline:
+        verdict = 'host-borderline'
+    ctx.describe(host=host, library_calls=pctx.calls,
+                 calls_with_arrays=pctx.array_calls,
+                 entries=sorted(pctx.entries)[:12], host_verdict=verdict)
+    ctx.label('host=' + pid, verdict)
+    ctx.nontrivial(pctx.array_calls > 0)
 
 
 # ---------------------------------------------------------------------------
